@@ -5,7 +5,7 @@ set -u
 WT=$1; CH=$2; LOG=$CH/confirm.log
 HEAD=$(git -C /repo rev-parse HEAD)
 cd $WT || exit 9
-git checkout -q -- . ; git clean -fdq -e target
+git reset -q --hard; git clean -fdq -e target
 git checkout -q --detach $HEAD || exit 9
 : > $LOG
 echo "HEAD=$HEAD" >> $LOG
@@ -17,14 +17,14 @@ if echo $DEMO | grep -q '/tests/'; then DEMOCMD="cargo test -p $CRATE --offline 
 echo "demo cmd: $DEMOCMD" >> $LOG
 $DEMOCMD >> $LOG 2>&1; A=$?
 echo "demo on clean HEAD rc=$A" >> $LOG
-git apply --3way $CH/patch.diff >> $LOG 2>&1 || { echo "RESULT patch-does-not-apply" | tee -a $LOG; git checkout -q -- .; git clean -fdq -e target; exit 1; }
-git diff -- . ':(exclude)'$DEMO > $CH/patch.rebased.diff
+git apply --3way $CH/patch.diff >> $LOG 2>&1 || { echo "RESULT patch-does-not-apply" | tee -a $LOG; git reset -q --hard; git clean -fdq -e target; exit 1; }
+git diff HEAD -- . ":(exclude)$DEMO" > $CH/patch.rebased.diff
 $DEMOCMD >> $LOG 2>&1; B=$?
 echo "demo with patch rc=$B" >> $LOG
 # remove the demo, keep the patch, run full suite
-git apply -R $CH/demo.diff >> $LOG 2>&1 || { rm -f $DEMO; git checkout -q -- $DEMO 2>/dev/null; }
+git reset -q; git apply -R $CH/demo.diff >> $LOG 2>&1 || rm -f $DEMO
 cargo nextest run --workspace --no-fail-fast --offline --test-threads 6 > $CH/suite.log 2>&1; C=$?
 tail -3 $CH/suite.log >> $LOG
 echo "suite with patch rc=$C" >> $LOG
-git checkout -q -- . ; git clean -fdq -e target
+git reset -q --hard; git clean -fdq -e target
 if [ $A -eq 0 ] && [ $B -ne 0 ] && [ $C -eq 0 ]; then echo "RESULT confirmed" | tee -a $LOG; else echo "RESULT NOT-confirmed A=$A B=$B C=$C" | tee -a $LOG; fi
